@@ -85,8 +85,6 @@ Proof. vm_compute. reflexivity. Qed.
 Lemma metareset_rows_check : metareset_rows_ok = true.
 Proof. vm_compute. reflexivity. Qed.
 (** the model resets all four fields in the same operations *)
-Lemma model_resets c s k l : is_grouped (ax_of {| shape := shape s; data := data s; axes := set_axes s k l |} k) = false \/ (length (axes s) <= k)%nat.
-Proof.
-  destruct (Nat.lt_ge_cases k (length (axes s))) as [H|H]; [left|now right].
-  rewrite ax_of_set_axes by assumption. now rewrite Nat.eqb_refl.
-Qed.
+Lemma model_resets (s : st) (k : nat) (l : list (option larr)) :
+  (k < length (axes s))%nat -> is_grouped (ax_of {| shape := shape s; data := data s; axes := set_axes s k l |} k) = false.
+Proof. intros H. rewrite ax_of_set_axes by assumption. now rewrite Nat.eqb_refl. Qed.
